@@ -302,6 +302,20 @@ class WalletWorld:
         ok, addrs = self.call(wi, 'addresslist', lambda: self.wallet_addresses(wi))
         if not ok or not addrs:
             return
+        if self.focus == 'C07' and ch.coin('aged_shape', 0.25):
+            # several equal, well confirmed coins that must be combined + one fresh coin that would suffice alone
+            a = addrs[ch.index('fund_addr', len(addrs))]
+            v = ch.pick('aged_v', [60000000, 600000, 6000000])
+            self.w.op('fund_aged_shape', wallet=wi.name, value=v)
+            self.chain.fund([(self.script_of(a), v), (self.script_of(a), v)])
+            for _ in range(ch.int('aged_blocks', 3, 8)):
+                self.chain.mine()
+            self.chain.fund([(self.script_of(addrs[ch.index('fund_addr2', len(addrs))]), v * 3 + v // 3)])
+            if ch.coin('fresh_confirmed', 0.7):
+                self.chain.mine()
+            h = self.H(wi)
+            self.call(wi, 'utxos_update', lambda: h.utxos_update())
+            return
         n = ch.int('nfund', 1, 3)
         outs = []
         for _ in range(n):
@@ -388,7 +402,7 @@ class WalletWorld:
     def op_send(self, wi):
         ch = self.ch
         h = self.H(wi)
-        min_conf = ch.pick('minconf', [1, 0, 0, 0, 2])
+        min_conf = ch.pick('minconf', [1, 0, 0, 0, 2] if self.focus != 'C07' else [1, 0, 0, 2, 3, 6])
         self.quiet = True
         try:
             us = self.spendable(wi, min_conf)
@@ -404,7 +418,7 @@ class WalletWorld:
         fee = ch.weighted('fee', [(None, 5), (1000, 2), (5000, 1), ('low', 1), ('high', 1), (0, 1)])
         broadcast = ch.coin('broadcast', 0.75)
         rbf = ch.coin('rbf', 0.2)
-        nco = ch.weighted('nco', [(1, 6), (0, 2), (2, 2), (3, 1)])
+        nco = ch.weighted('nco', [(1, 6), (0, 2 if self.focus != 'C07' else 5), (2, 2), (3, 1)])
         extra = {}
         outs_arg = list(outs)
         self.request_extra = {}
@@ -605,6 +619,9 @@ class WalletWorld:
         ch = self.ch
         h = self.H(wi)
         cands = sorted(x for x in wi.sent if self.chain.txs[x].height is None)
+        pend = [p for p in wi.pending if p['handle'] in wi.handles]
+        if pend and (not cands or ch.coin('bump_pending', 0.5)):
+            return self.op_bumpfee_pending(wi, pend[ch.index('bump_p', len(pend))])
         if not cands:
             return
         txid = cands[ch.index('bump_i', len(cands))]
@@ -654,6 +671,36 @@ class WalletWorld:
             wi.seen_txids.add(t.txid)
             for i in t.inputs:
                 wi.acked_spent[(i.prev_txid.hex(), i.output_n_int)] = (t.txid, self.w.log.seq)
+
+    def op_bumpfee_pending(self, wi, p):
+        """Raise the fee of a transaction that was created and signed but not broadcast yet."""
+        ch = self.ch
+        t = p['t']
+        how = ch.pick('bump_how', ['default', 'extra_fee', 'eat_change', 'more_than_change'])
+        self.w.op('bumpfee_pending', wallet=wi.name, txid=t.txid[:16], how=how)
+        old_fee = t.fee
+        old_outs = [(bytes(o.lock_script), o.value, bool(o.change)) for o in t.outputs]
+        self.bump_old_inputs = {(i.prev_txid.hex(), i.output_n_int) for i in t.inputs}
+        kw = {}
+        chg = sorted(o.value for o in t.outputs if o.change)
+        if how == 'extra_fee':
+            kw['extra_fee'] = ch.pick('bump_v', [500, 5000])
+        elif how == 'eat_change':
+            if not chg:
+                return
+            kw['extra_fee'] = chg[0] + ch.pick('bump_eat', [1, 0, 600])
+        elif how == 'more_than_change':
+            # the change cannot cover the bump: the wallet has to add another of its unspent outputs
+            kw['extra_fee'] = sum(chg) + ch.pick('bump_more', [700, 3000])
+        ok, _ = self.call(wi, 'bumpfee_pending', lambda: t.bumpfee(broadcast=False, **kw))
+        if not ok:
+            wi.pending = [q for q in wi.pending if q is not p]
+            return
+        self.w.outcome('bumped', old_fee=old_fee, new_fee=t.fee, n_in=len(t.inputs), n_out=len(t.outputs))
+        self.on_bumped_pending(wi, p['handle'], t, old_fee, old_outs)
+
+    def on_bumped_pending(self, wi, h, t, old_fee, old_outs):
+        """C07 hook."""
 
     def on_bumped(self, wi, h, t, old_fee, old_txid):
         """C07 hook."""
